@@ -24,6 +24,7 @@ import Driver.Lifecycle
 import Driver.HandlerStatus
 import Driver.EventSerial
 import Driver.StreamGate
+import Driver.WorkerCleanup
 
 def main (args : List String) : IO UInt32 := do
   let stdin ← IO.getStdin
@@ -53,4 +54,5 @@ def main (args : List String) : IO UInt32 := do
   | ["handlerstatus"] => Drv.loop stdin Drv.HandlerStatus.step {}; return 0
   | ["eventserial"] => Drv.loop stdin Drv.EventSerial.step {}; return 0
   | ["streamgate"] => Drv.loop stdin Drv.StreamGate.step {}; return 0
+  | ["workercleanup"] => Drv.loop stdin Drv.WorkerCleanup.step (); return 0
   | _ => IO.eprintln "usage: wfdriver <model>"; return 2
